@@ -105,6 +105,7 @@ static inline std::string card_dbl(const std::string &key, double v) { char b[40
 static inline std::string card_str(const std::string &key, const std::string &v) {
 	std::string q;
 	for (char c : v) { q += c; if (c == '\'') q += '\''; }
+	if (key.size() > 8) return pad80("HIERARCH " + key + " = '" + q + "'"); // ESO HIERARCH convention for long keywords
 	while (q.size() < 8) q += ' ';
 	char b[160]; snprintf(b, sizeof b, "%-8.8s= '%s'", key.c_str(), q.c_str());
 	return pad80(b);
@@ -232,6 +233,7 @@ struct GenOpts {
 	int extra_knots_max = 12;
 	double min_table_bias = 0.35; // probability that a dimension takes the minimum knot count
 	bool known_patterns = true;
+	bool custom_extents = true;   // 35% of tables carry EXTENTS that differ from the supported knot range
 };
 static inline std::vector<double> gen_knots(Rng &r, unsigned o, int nk, int flavor, double scale, double origin, bool strict) {
 	std::vector<double> k;
@@ -258,6 +260,22 @@ static inline std::vector<double> gen_knots(Rng &r, unsigned o, int nk, int flav
 }
 static const char *knot_flavor_name(int f) { static const char *n[] = {"uniform", "irregular", "wide-ratio", "repeated", "clamped"}; return n[f]; }
 
+// EXTENTS that differ from the fully supported knot range (narrower by whole intervals, or out to / beyond the outer knots)
+static inline void add_custom_extents(Rng &r, Spec &s) {
+	s.extents.clear();
+	for (int d = 0; d < s.ndim(); d++) {
+		const std::vector<double> &k = s.knots[d]; int nk = (int)k.size(); unsigned o = s.order[d];
+		double lo = k[o], hi = k[nk - 1 - o];
+		switch (r.below(4)) {
+		case 0: { int a = (int)o + (int)r.below(std::max(1, (nk - 2 * (int)o) / 2)), b = nk - 1 - (int)o - (int)r.below(std::max(1, (nk - 2 * (int)o) / 2)); if (a < b) { lo = k[a] + 0.25 * (k[a + 1] - k[a]); hi = k[b] - 0.25 * (k[b] - k[b - 1]); } break; }
+		case 1: lo = k[0]; hi = k[nk - 1]; break;
+		case 2: lo = k[0] - (k[nk - 1] - k[0]); hi = k[nk - 1] + (k[nk - 1] - k[0]); break;
+		default: break;
+		}
+		s.extents.push_back(lo); s.extents.push_back(hi);
+	}
+	s.flavor += "/custom-extents";
+}
 static inline Spec gen_spec(Rng &r, const GenOpts &g) {
 	Spec s;
 	for (int attempt = 0; attempt < 200; attempt++) {
@@ -317,6 +335,7 @@ static inline Spec gen_spec(Rng &r, const GenOpts &g) {
 			cfn = "special";
 		}
 		s.flavor = std::string(knot_flavor_name(flavor)) + "/" + (magcls == 4 ? "hugeknots" : magcls == 5 ? "tinyknots" : "unit") + "/" + cfn + (allmin ? "/allmin" : "");
+		if (g.custom_extents && r.coin(0.35)) add_custom_extents(r, s);
 		return s;
 	}
 	// fall back to something tiny
